@@ -1423,8 +1423,14 @@ func (s *sharedEntryAttributes) getKeyName() (string, error) {
 	// only Contaieners have keys, so check for that
 	switch sch := ancestorWithSchema.GetSchema().GetSchema().(type) {
 	case *sdcpb.SchemaElem_Container:
+		// the key levels of the tree are sorted by the name of the key (see utils.ToStrings())
+		keyNames := make([]string, 0, len(sch.Container.GetKeys()))
+		for _, k := range sch.Container.GetKeys() {
+			keyNames = append(keyNames, k.Name)
+		}
+		sort.Strings(keyNames)
 		// return the name of the levelUp-1 key
-		return sch.Container.GetKeys()[levelUp-1].Name, nil
+		return keyNames[levelUp-1], nil
 	}
 
 	// we probably called the function on a LeafList or LeafEntry which is not a valid call to be made.
